@@ -219,8 +219,10 @@ def run_coq_cases(tag, requires, run_def, cases, shard=400, jobs=16, timeout=150
     pending = list(enumerate(names))
     running = []
     t_end = time.time() + timeout
+    retries = {}
+    retry_later = []
     try:
-        while pending or running:
+        while pending or running or retry_later:
             while pending and len(running) < jobs:
                 k, name = pending.pop(0)
                 p = subprocess.Popen(["bash", "-c", "ulimit -s unlimited 2>/dev/null; exec coqc %s Corr/%s.v" %
@@ -237,8 +239,13 @@ def run_coq_cases(tag, requires, run_def, cases, shard=400, jobs=16, timeout=150
                         still.append((k, name, p))
                         continue
                 out = p.stdout.read()
+                if p.returncode != 0 and (p.returncode < 0 or not out.strip()) and retries.get(k, 0) < 2 and time.time() < t_end:
+                    # killed by a signal / no diagnostic (memory pressure from concurrent jobs): run this shard again, alone
+                    retries[k] = retries.get(k, 0) + 1
+                    retry_later.append((k, name))
+                    continue
                 if p.returncode != 0:
-                    err = "coqc failed on %s:\n%s" % (name, out[-2000:])
+                    err = "coqc failed on %s (exit %s):\n%s" % (name, p.returncode, out[-2000:])
                     results[k] = None
                 else:
                     m = re.search(r"=\s*\[(.*?)\]\s*:\s*list nat", out, re.S)
@@ -249,6 +256,9 @@ def run_coq_cases(tag, requires, run_def, cases, shard=400, jobs=16, timeout=150
                         body = m.group(1).replace("%nat", "")
                         results[k] = [int(x) for x in re.findall(r"\d+", body)]
             running = still
+            if not running and not pending and retry_later:
+                pending = retry_later[:1]
+                retry_later = retry_later[1:]
             if running:
                 time.sleep(0.05)
     finally:
